@@ -2,14 +2,22 @@
 
 proof side : lean/Heph/Props/C01.lean — `check_sound : checkProgram lt p = .ok → WT lt p` for ALL programs
              (the declarative judgement of lean/Heph/Spec/Typing.lean over `Asg`), `isSubD_sound`, the model of
-             the fold of `gen_conditional` with `condType_upper_partial` / `condType_counterexample`.
+             the fold of `gen_conditional` with `condType_upper_partial` / `condType_counterexample` /
+             `condTypeFixed_upper`, the model of the filter of `gen_variable` with `genVariable_sound` /
+             `genVariable_assignable` / `genVariable_refines_*`.
 tie to code: every program the real generator produces for (language x switch setting x seed x max_depth) is
              exported by value and sent to the verified checker (op `check.wt`).  The quantifier over seeds is
              covered only on the explored programs.  A rejected program is a candidate violation: replay =
              (lang, seed, switches, max_depth) + error path; for Java the translation is also given to javac.
              Negative controls: ill-typed mutants of accepted programs must be rejected.
-             Decision point `gen_conditional`: the fold's inputs/outputs are recorded inside the generator runs
-             (plugin c01_plugin) and compared with the Lean model `condType` (refinement check).
+             Decision points, recorded inside the same generator runs by the plugin c01_plugin:
+             `gen_conditional` (the fold's three draws, its result, the expected type and the type finally
+             recorded, compared with `condType` / `condTypeFixed`), `gen_variable` (variables in scope, expected
+             type, flags, outcome; refinement of `genVariableCandidates`, a differing call is judged by the
+             specification-side decider `check.subd`).  The witness of `condType_counterexample` is replayed on the
+             real `gen_conditional` (`fold_witness`).
+budget     : one program costs 0.2-60 CPU seconds (deep copies in the generator); programs are capped by CPU time
+             (not wall-clock time) so that the set of cut-off programs does not depend on the load of the machine.
 """
 import collections
 import json
@@ -225,8 +233,12 @@ def triage(run, spec, ans, rq, javac_cache, unexplained_cond=True):
             javac_cache[key] = javac_verdict(txt) if txt else ("unavailable", "no translation")
         rp["javac"] = {"verdict": javac_cache[key][0], "errors": javac_cache[key][1]}
         run.tally("javac_on_rejected", javac_cache[key][0])
+    seen = run.cov.setdefault("_reported_signatures", [])
     for sig in sigs:
         run.tally("rejection_signatures", sig)
+        if sig in seen:            # one replay per shape; further programs of the same shape are only tallied
+            continue
+        seen.append(sig)
         run.violation(dict(rp, signature=sig), signature=sig)
 
 
@@ -483,15 +495,21 @@ def check(run):
                 for s in range(12):
                     specs.append(spec_of(lang, base + s, sw, 6, 60, plugins=["c01_plugin"]))
     else:
+        # 4 languages x 16 switch settings x N seeds, max_depth cycling over 3, 6, 8.  N = 24 (1 536 programs, about
+        # 3 CPU hours: the generator deep-copies class declarations, 7 CPU seconds per program on average) keeps the
+        # tier under 30 minutes on an idle 16-core machine; C01_THOROUGH_SEEDS overrides N.
         depths = (3, 6, 8)
+        nseeds = int(os.environ.get("C01_THOROUGH_SEEDS", "24"))
+        run.cov["thorough_seeds_per_setting"] = nseeds
         for lang in pipeline.LANGS:
             for sw in pipeline.all_switch_settings():
-                for s in range(150):
-                    specs.append(spec_of(lang, base + s, sw, depths[s % 3], 120, plugins=["c01_plugin"]))
+                for s in range(nseeds):
+                    specs.append(spec_of(lang, base + s, sw, depths[s % 3], 90, plugins=["c01_plugin"]))
     run.cov["rule"] = ("one case = one program returned by the real Generator for (language, switch setting, seed, "
                        "max_depth), exported by value and judged by the verified checker (check.wt); non-trivial = more "
                        "than 50 AST nodes; distinct by replay tuple; plus ill-typed mutants of accepted programs "
-                       "(negative controls) and the recorded folds of gen_conditional against the model condType")
+                       "(negative controls), the recorded folds of gen_conditional against the models condType / "
+                       "condTypeFixed and the recorded calls of gen_variable against genVariableCandidates")
     # corpus first
     cdir = os.path.join(common.VERIF, "corpus")
     corpus = []
